@@ -202,13 +202,14 @@ VARIANTS = [
      "old": "            writer.write_bytes(raw_body)\n", "new": "            logger.debug('raw body of %d bytes', len(raw_body))\n            writer.write_bytes(raw_body)\n"},
     # ------------------------------------------------------------------ R6
     {"name": "R6 quaternion packer normalises before packing", "file": PACK, "expect": "C02.R6",
-     "old": "                x = x.data()\n            return struct_obj.pack(*x[:needed_elems])",
-     "new": "                x = x.data()\n            norm = sum(c * c for c in x) ** 0.5 or 1.0\n            x = [c / norm for c in x]\n"
+     "old": "            return struct_obj.pack(*x.data(needed_elems)[:needed_elems])",
+     "new": "            x = x.data(needed_elems)\n            norm = sum(c * c for c in x) ** 0.5 or 1.0\n            x = [c / norm for c in x]\n"
             "            return struct_obj.pack(*x[:needed_elems])"},
     {"name": "R6 coordinate packer rounds its components", "file": PACK, "expect": "C02.R6",
      "old": "            return struct_obj.pack(*x)\n", "new": "            return struct_obj.pack(*(round(c, 6) for c in x))\n"},
     {"name": "P R6 components selected into a local first", "file": PACK, "expect": "silent",
-     "old": "            return struct_obj.pack(*x[:needed_elems])", "new": "            wanted = tuple(x)[:needed_elems]\n            return struct_obj.pack(*wanted)"},
+     "old": "            return struct_obj.pack(*x.data(needed_elems)[:needed_elems])",
+     "new": "            wanted = tuple(x.data(needed_elems))[:needed_elems]\n            return struct_obj.pack(*wanted)"},
     {"name": "P R4 heuristic moved into a helper with guard clauses", "expect": "silent", "edits": [
         {"file": DES, "old": "        if not isinstance(unpacked_data, bytes):\n            return unpacked_data\n",
          "new": "        if not isinstance(unpacked_data, bytes):\n            return unpacked_data\n"
@@ -269,10 +270,23 @@ VARIANTS = [
         {"file": DES, "old": "LOG = getLogger('message.udpdeserializer')\n", "new": "LOG = getLogger('message.udpdeserializer')\n_NUL = b\"\\x00\"\n"},
         {"file": DES, "old": r'if unpacked_data.endswith(b"\x00"):', "new": "if unpacked_data.endswith(_NUL):"}]},
     {"name": "P R6 leading components picked by a shared module helper", "expect": "silent", "edits": [
-        {"file": PACK, "old": "            if isinstance(x, TupleCoord):\n                x = x.data()\n            return struct_obj.pack(*x[:needed_elems])",
+        {"file": PACK, "old": "            return struct_obj.pack(*x.data(needed_elems)[:needed_elems])",
          "new": "            return struct_obj.pack(*_first(x, needed_elems))"},
         {"file": PACK, "old": "def _make_tuplecoord_spec(",
-         "new": "def _first(x, n):\n    if isinstance(x, TupleCoord):\n        x = x.data()\n    return x[:n]\n\n\ndef _make_tuplecoord_spec("}]},
+         "new": "def _first(x, n):\n    x = x.data(n)\n    return x[:n]\n\n\ndef _make_tuplecoord_spec("}]},
+    {"name": "R6 Quaternion derives a negative W for three-component values", "file": DT, "expect": "C02.R6",
+     "old": "                self.W = math.sqrt(t)\n", "new": "                self.W = -math.sqrt(t)\n"},
+    {"name": "R6 Quaternion.data(3) flips only one component", "file": DT, "expect": "C02.R6",
+     "old": "                return -self.X, -self.Y, -self.Z\n", "new": "                return -self.X, self.Y, self.Z\n"},
+    {"name": "R6 Quaternion.data(3) rounds the components it hands out", "file": DT, "expect": "C02.R6",
+     "old": "            return self.X, self.Y, self.Z\n        return self.X, self.Y, self.Z, self.W\n",
+     "new": "            return round(self.X, 6), round(self.Y, 6), round(self.Z, 6)\n        return self.X, self.Y, self.Z, self.W\n"},
+    {"name": "P R6 Quaternion.data(3) sign flip written with the guard first", "file": DT, "expect": "silent",
+     "old": "            if self.W < 0:\n                return -self.X, -self.Y, -self.Z\n            return self.X, self.Y, self.Z\n",
+     "new": "            if not self.W < 0:\n                return self.X, self.Y, self.Z\n            return -self.X, -self.Y, -self.Z\n"},
+    {"name": "P R6 packer narrows with data() and a slice again", "file": PACK, "expect": "silent",
+     "old": "            return struct_obj.pack(*x.data(needed_elems)[:needed_elems])",
+     "new": "            x = x.data(needed_elems)\n            return struct_obj.pack(*x[:needed_elems])"},
     # ------------------------------------------------------------------ R8 / R9
     {"name": "R8 to_dict hands out the blocks' own variable dicts", "file": MSG, "expect": "C02.R8",
      "old": "                new_vars = {}\n                for var_name, val in block.items():\n                    new_vars[var_name] = val\n"
